@@ -101,11 +101,11 @@ pub fn build(s: &Spec) -> Envelope {
                 // a node whose subject is a node: reachable through the API by compressing the inner node,
                 // adding assertions to the compressed element and uncompressing the subject again
                 // (no harness-side ordering is involved: every sort is the library's)
-                let mut x = e.compress().expect("compress refused a node");
-                for a in asserts { x = x.add_assertion_envelope(build(a)).expect("spec assertion refused"); }
-                return x.uncompress_subject().expect("uncompress_subject failed");
+                let mut x = e.compress().unwrap_or_else(|err| crate::engine::refused("compress of a node", err));
+                for a in asserts { x = x.add_assertion_envelope(build(a)).unwrap_or_else(|err| crate::engine::refused("add_assertion_envelope of an assertion element", err)); }
+                return x.uncompress_subject().unwrap_or_else(|err| crate::engine::refused("uncompress_subject", err));
             }
-            for a in asserts { e = e.add_assertion_envelope(build(a)).expect("spec assertion refused"); }
+            for a in asserts { e = e.add_assertion_envelope(build(a)).unwrap_or_else(|err| crate::engine::refused("add_assertion_envelope of an assertion element", err)); }
             e
         }
         Elided(x) => build(x).elide(),
@@ -114,7 +114,7 @@ pub fn build(s: &Spec) -> Envelope {
             let t: std::collections::HashSet<Digest> = [e.digest().into_owned()].into_iter().collect();
             e.elide_removing_set_with_action(&t, &ObscureAction::Encrypt(test_key()))
         }
-        Compressed(x) => build(x).compress().expect("compress refused"),
+        Compressed(x) => build(x).compress().unwrap_or_else(|err| crate::engine::refused("compress", err)),
     }
 }
 
@@ -323,6 +323,9 @@ pub fn specials() -> Vec<Spec> {
         n(a(l(1), l(2)), vec![a(l(1), l(2))]),
         n(a(l(1), l(2)), vec![a(l(1), l(2)), a(l(3), l(4))]),
         n(l(1), vec![el(l(1)), a(l(2), l(3))]),
+        // an assertion that keeps its own assertions while its inner assertion is compressed / encrypted / elided
+        n(l(1), vec![n(co(a(l(2), l(3))), vec![a(l(4), l(5))]), a(l(6), l(7))]),
+        n(l(1), vec![n(en(a(l(2), l(3))), vec![a(l(4), l(5))]), n(el(a(l(6), l(7))), vec![a(l(8), l(9))])]),
         // repeated content at several positions
         n(l(1), vec![a(l(2), l(1)), a(l(3), w(l(1))), a(l(2), l(4))]),
     ]
